@@ -549,7 +549,7 @@ def write_evidence(ctx, level="model_checking", extra_cov=None, exhaustive=None)
 
 
 # -------------------------------------------------- generic tree-trace check
-def check_recordings(ctx, driver, module, files, open_kf, variant_of=lambda f: "lin" if ".lin." in f else "tree",
+def check_recordings(ctx, driver, module, files, open_kf, variant_of=lambda f: "rnd" if ".rnd." in f else "lin" if ".lin." in f else "tree",
                      reproducer=None):
     """Validate recorded trace files against `module` (an XTrace module).
     `reproducer(ctx, file, nodes, target, module, cfg)` -> (replay description, observed) or None re-executes the
